@@ -121,7 +121,9 @@ class TabularMarkovDecisionProcess(MarkovDecisionProcess):
             return domaintuple(sorted(states))
         except TypeError: #unsortable
             pass
-        return domaintuple(states)
+        # `states` is a set: its iteration order changes with hash randomisation,
+        # so fall back to a deterministic order instead
+        return domaintuple(sorted(states, key=repr))
 
     @cached_property
     def action_list(self) -> Sequence[HashableAction]:
